@@ -242,7 +242,8 @@ type Server struct {
 
 	nextProtos map[string]ServeHandler
 
-	concurrencyCh chan struct{}
+	concurrencyCh     chan struct{}
+	concurrencyChOnce sync.Once
 
 	idleConns map[net.Conn]*atomic.Int64
 	done      chan struct{}
@@ -1992,9 +1993,7 @@ func (s *Server) Serve(ln net.Listener) error {
 	if s.done == nil {
 		s.done = make(chan struct{})
 	}
-	if s.concurrencyCh == nil {
-		s.concurrencyCh = make(chan struct{}, maxWorkersCount)
-	}
+	s.initConcurrencyCh()
 	s.mu.Unlock()
 
 	wp := &workerPool{
@@ -2219,6 +2218,7 @@ var (
 //
 // ServeConn closes c before returning.
 func (s *Server) ServeConn(c net.Conn) error {
+	s.initConcurrencyCh()
 	if s.MaxConnsPerIP > 0 {
 		pic := wrapPerIPConn(s, c)
 		if pic == nil {
@@ -2253,6 +2253,17 @@ func (s *Server) ServeConn(c net.Conn) error {
 	}
 	vhook("srv.conc.dec", s, c, 1, 0)
 	return err
+}
+
+// initConcurrencyCh creates the channel that bounds the number of handlers running
+// under TimeoutHandler. ServeConn needs it as well: without it every request to a
+// TimeoutHandler on a server that never called Serve was answered with 429.
+func (s *Server) initConcurrencyCh() {
+	s.concurrencyChOnce.Do(func() {
+		if s.concurrencyCh == nil {
+			s.concurrencyCh = make(chan struct{}, s.getConcurrency())
+		}
+	})
 }
 
 func (s *Server) tryAcquireConcurrency() bool {
